@@ -590,7 +590,7 @@ def rule_case_files(all_rules, max_nodes_per_file=40000):
     # and helper-variable definitions
     items = []
     for (key, val) in all_rules.get('rpd', []):
-        d, st, din = key
+        d, st, din = key[:3]
         dout, defs = val
         try:
             if din[0] != 'PD':
@@ -616,6 +616,57 @@ def rule_case_files(all_rules, max_nodes_per_file=40000):
   | RFail => false
   end.
 ''', items, 'rpd_ok', 'bool * nat * string * option nat * list nat * bool * qexpr * list (string * qexpr)')
+
+    # replace_physical_derivs on references to input fields (rpd_vr) and insert_input_field_derivs (iifd)
+    items = []
+    for (key, val) in all_rules.get('rpd', []):
+        if key[2][0] != 'VR' or len(key) < 4:
+            continue
+        d, st, din, srcphys = key
+        dout, defs = val
+        try:
+            txt = '(%d, %s, %s, %s, %s, %s, %s, [%s])' % (
+                d, cstr(din[1]), cnl(din[2]), cnl(din[3]), cb(din[4]), cb(srcphys),
+                cexpr(dout), '; '.join('(%s, %s)' % (cstr(n), cexpr(t)) for n, t in defs))
+            items.append((txt, tree_size(dout) + sum(tree_size(t) for _, t in defs) + 5,
+                          {'rule': 'replace_physical_derivs(VarRefExpr)', 'dim': d, 'in': to_sexp(din),
+                           'source_physical': srcphys, 'out': to_sexp(dout)[:1500]}))
+        except Skip:
+            pass
+    chunked('rpdv', '''From Verif.C06 Require Import InputField.
+Definition rpdv_ok (c : nat * string * list nat * list nat * bool * bool * qexpr * list (string * qexpr)) : bool :=
+  let '(d, n, Ix, D, p, sp, want, wdefs) := c in
+  match rpd_vr Qc (q 0%Z 1%positive) d n Ix D p sp with
+  | RNew e ds =>
+      qexpr_eqb e want && Nat.eqb (List.length ds) (List.length wdefs) &&
+      forallb (fun w : string * qexpr =>
+                 existsb (fun dd : string * qtexpr =>
+                            String.eqb (fst dd) (fst w) &&
+                            match snd dd with TS e' => qexpr_eqb e' (snd w) | _ => false end) ds) wdefs
+  | RSame => qexpr_eqb (VR n Ix D p) want && Nat.eqb (List.length wdefs) 0
+  | RFail => false
+  end.
+''', items, 'rpdv_ok', 'nat * string * list nat * list nat * bool * bool * qexpr * list (string * qexpr)')
+
+    items = []
+    for (key, dout) in all_rules.get('iifd', []):
+        d, din, base = key
+        try:
+            if din[0] != 'VR':
+                continue
+            items.append(('(%d, %s, %s, %s, %s)' % (d, cstr(base), cnl(din[2]), cnl(din[3]), cexpr(dout)),
+                          tree_size(dout) + 5,
+                          {'rule': 'insert_input_field_derivs', 'dim': d, 'in': to_sexp(din), 'field': base, 'out': to_sexp(dout)}))
+        except Skip:
+            pass
+    chunked('iifd', '''From Verif.C06 Require Import InputField.
+Definition iifd_ok (c : nat * string * list nat * list nat * qexpr) : bool :=
+  let '(d, base, Ix, D, want) := c in
+  match iifd Qc d base Ix D with
+  | RNew e _ => qexpr_eqb e want
+  | _ => false
+  end.
+''', items, 'iifd_ok', 'nat * string * list nat * list nat * qexpr')
 
     # substitute_vec_components: every entry of the component vector/matrix is the model's substitution
     items = []
@@ -1068,6 +1119,7 @@ def _check_index(i):
 def run(ctx):
     thorough = ctx.tier == 'thorough'
     ok1 = ctx.obligations_stage(PROPS, extra_targets=['C06/Examples.vo'])
+    ok2 = ctx.obligations_stage('C06/Props2.v', extra_targets=['C06/Examples2.vo'])
     ctx.assumptions += [
         'model: hand transcription of the expression classes, .at() indexing, fold_constants, Dx/_dx_impl, '
         'extract_common_expressions\' replacement step, replace_trivial_vars and the schedule condition of '
@@ -1138,7 +1190,7 @@ def run(ctx):
     status = collections.Counter()
     stats = collections.Counter()
     dist = collections.Counter()
-    all_rules = {'fold': [], 'dx': [], 'lit': [], 'rpd': [], 'vec': [], 'opsm': []}
+    all_rules = {'fold': [], 'dx': [], 'lit': [], 'rpd': [], 'vec': [], 'opsm': [], 'iifd': []}
     for ospec, ores_ in zip(ospecs, ores):
         if ospec['ops'][0] == 'linalg' and ores_['status'] == 'Ok':
             all_rules['opsm'].append((ospec['ops'][1], ores_['R']))
@@ -1166,6 +1218,11 @@ def run(ctx):
                 if key not in seen_rule:
                     seen_rule.add(key)
                     all_rules[kind].append(rec)
+        for rec in res.get('rules', {}).get('iifd', []):
+            key = 'iifd' + json.dumps(rec[0])
+            if key not in seen_rule:
+                seen_rule.add(key)
+                all_rules['iifd'].append(rec)
         for rec in res.get('rules', {}).get('rpd', []):
             key = 'rpd' + json.dumps(rec[0])
             if key not in seen_rule:
